@@ -310,7 +310,28 @@ def r6(ctx):
         raise AnalysisBroken('C17.R6: constructor initialiser of m_pollOrder not found')
 
 
+def r7(ctx):
+    ctx.rule('C17.R7', 'a message that a condition depends on is polled: SimpleCondition::resolve gives the referenced message the '
+             'condition priority (setUsedByCondition) and puts it into the poll queue (addPollMessage) on every path on which '
+             'it is a named, non-scan message; a message with a priority that is not queued is never selected', minimum=1)
+    fb = ctx.fb
+    fn = fb.fn('ebusd::SimpleCondition::resolve')
+    ctx.touch(fn)
+    used = [c for c in fn.all('CXXMemberCallExpr') if (fn.nodes[c].get('callee') or '').endswith('::setUsedByCondition')]
+    adds = set(c for c in fn.all('CXXMemberCallExpr') if (fn.nodes[c].get('callee') or '').endswith('::addPollMessage'))
+    if not used or not adds:
+        raise AnalysisBroken('C17.R7: setUsedByCondition / addPollMessage not found in SimpleCondition::resolve')
+    for u in used:
+        m = fn.key(fn.nodes[u]['obj'])
+        cut = list(fn.edges_with_atom('%s.isScanMessage()' % m, True))
+        cut += list(fn.edges_with_atom('(this.m_name.length() <= #0)', True)) + list(fn.edges_with_atom('this.m_name.empty()', True))
+        pu = fn.pos(u)
+        skipped = fn.reaches_point(pu[0], (fn.exit, 0), adds, start_idx=pu[1] + 1, cut_edges=cut)
+        ctx.ob('C17.R7', fn, u, not skipped, 'message used by a condition', 'queued for polling on every path for a named non-scan message: %s' % (not skipped))
+
+
 def run(ctx):
+    r7(ctx)
     r6(ctx)
     r5(ctx)
     r1(ctx)
